@@ -230,6 +230,7 @@ type constDecl struct {
 	typ  ast.Expr
 	val  ast.Expr
 	file *ast.File
+	iota int // position of the specification inside its const block
 }
 
 type failure struct{ msg string }
@@ -317,6 +318,8 @@ func (t *translator) loadPkg(dir string) *pkgInfo {
 			imp[alias] = path
 		}
 		p.imports[af] = imp
+		var lastConstVals []ast.Expr
+		var lastConstType ast.Expr
 		for _, d := range af.Decls {
 			switch x := d.(type) {
 			case *ast.FuncDecl:
@@ -339,11 +342,22 @@ func (t *translator) loadPkg(dir string) *pkgInfo {
 					case *ast.TypeSpec:
 						p.types[sp.Name.Name] = sp.Type
 					case *ast.ValueSpec:
+						if x.Tok == token.CONST {
+							// an omitted expression list repeats the previous one (with the new iota)
+							if len(sp.Values) > 0 {
+								lastConstVals, lastConstType = sp.Values, sp.Type
+							}
+						}
 						for i, id := range sp.Names {
 							if x.Tok == token.CONST {
-								cd := &constDecl{name: id.Name, typ: sp.Type, file: af}
+								cd := &constDecl{name: id.Name, typ: sp.Type, file: af, iota: specIndex(x, s)}
 								if i < len(sp.Values) {
 									cd.val = sp.Values[i]
+								} else if len(sp.Values) == 0 && i < len(lastConstVals) {
+									cd.val = lastConstVals[i]
+									if cd.typ == nil {
+										cd.typ = lastConstType
+									}
 								}
 								p.consts[id.Name] = cd
 							} else {
@@ -757,6 +771,7 @@ type ftrans struct {
 	heapName    string // the heap variable threaded through the function ("" = none)
 	bareReturn  func(e env) node // inside a closure body: what a bare return yields
 	heapType    string // Lean type of the heap variable
+	curIota     int    // the value of iota while a package-level constant is evaluated (-1 = not in a const declaration)
 }
 
 var leanKeywords = map[string]bool{"at": true, "from": true, "fun": true, "end": true, "open": true, "in": true, "do": true, "then": true,
@@ -929,6 +944,9 @@ func (ft *ftrans) constOf(x ast.Expr, e env) *cval {
 	case *ast.ParenExpr:
 		return ft.constOf(c.X, e)
 	case *ast.Ident:
+		if c.Name == "iota" && c.Obj == nil && ft.curIota >= 0 {
+			return &cval{i: big.NewInt(int64(ft.curIota))}
+		}
 		if c.Obj != nil {
 			if b, ok := e[c.Obj]; ok {
 				if b.kind == bConst {
@@ -964,6 +982,22 @@ func (ft *ftrans) constOf(x ast.Expr, e env) *cval {
 				return nil
 			}
 			return &cval{i: r.Lsh(a.i, uint(b.i.Int64()))}
+		case token.SHR:
+			if b.i.Sign() < 0 || b.i.Cmp(big.NewInt(200)) > 0 {
+				return nil
+			}
+			return &cval{i: r.Rsh(a.i, uint(b.i.Int64()))}
+		case token.QUO:
+			// integer constants only: truncated division (an untyped float division would be something else)
+			if b.i.Sign() == 0 || a.isFloat || b.isFloat {
+				return nil
+			}
+			return &cval{i: r.Quo(a.i, b.i)}
+		case token.REM:
+			if b.i.Sign() == 0 || a.isFloat || b.isFloat {
+				return nil
+			}
+			return &cval{i: r.Rem(a.i, b.i)}
 		}
 	}
 	return nil
@@ -974,7 +1008,7 @@ func (ft *ftrans) pkgConst(p *pkgInfo, cd *constDecl, depth int) *cval {
 		return nil
 	}
 	// constants of the package are evaluated in an empty local environment
-	sub := &ftrans{t: ft.t, f: &fn{pkg: p}}
+	sub := &ftrans{t: ft.t, f: &fn{pkg: p}, curIota: cd.iota}
 	return sub.constOf(cd.val, env{})
 }
 
@@ -1056,7 +1090,10 @@ func (ft *ftrans) expr(x ast.Expr, e env, pre *[]prelude) val {
 	case *ast.Ident:
 		return ft.ident(c, e)
 	case *ast.UnaryExpr:
-		a := ft.expr(c.X, e, pre)
+		var a val
+		if _, isLit := unparen(c.X).(*ast.CompositeLit); !(isLit && c.Op == token.AND) {
+			a = ft.expr(c.X, e, pre)
+		}
 		switch c.Op {
 		case token.NOT:
 			return val{s: "(!" + atom(a.s) + ")", t: "bool"}
@@ -1065,6 +1102,19 @@ func (ft *ftrans) expr(x ast.Expr, e env, pre *[]prelude) val {
 				return (&cval{i: new(big.Int).Neg(a.cv.i)}).lean()
 			}
 		case token.AND:
+			if cl, isLit := unparen(c.X).(*ast.CompositeLit); isLit {
+				// &T{…}: a pointer to a fresh value of a translated struct
+				if v, isStruct := ft.structLit(cl, e, pre); isStruct {
+					pt := "*" + v.t
+					if _, configured := ft.t.mod.LeanTypes[pt]; configured {
+						if ft.t.mod.NilTerms[pt] != "none" {
+							failf("&%s{…}: pointers to it have a configured reading that is not an option", v.t)
+						}
+						return val{s: "(some " + atom(v.s) + ")", t: pt}
+					}
+					return val{s: v.s, t: pt}
+				}
+			}
 			// &x of a local struct variable, only as a result of the function (nothing can change x afterwards)
 			id, isID := unparen(c.X).(*ast.Ident)
 			if isID && id.Obj != nil && ft.inReturn {
@@ -1128,6 +1178,9 @@ func (ft *ftrans) expr(x ast.Expr, e env, pre *[]prelude) val {
 	case *ast.CompositeLit:
 		if st, isSt := c.Type.(*ast.StructType); isSt && (st.Fields == nil || len(st.Fields.List) == 0) && len(c.Elts) == 0 {
 			return val{s: "()", t: "struct{}"}
+		}
+		if v, isStruct := ft.structLit(c, e, pre); isStruct {
+			return v
 		}
 		at, ok := c.Type.(*ast.ArrayType)
 		if !ok || at.Len != nil {
@@ -2027,6 +2080,12 @@ func (ft *ftrans) convert(to string, v val) val {
 		return val{s: v.s, t: to, cv: v.cv}
 	case ut == "int" && uf == "int":
 		return val{s: v.s, t: to}
+	case (ut == "int64" && (uf == "int" || uf == "int64")) || (ut == "int" && (uf == "int64" || uf == "int32")) || (ut == "int32" && uf == "int32"):
+		return val{s: v.s, t: to} // int is 64 bits wide
+	case ut == "int32" && (uf == "int" || uf == "int64"):
+		return val{s: "(Gen.Rt.wrapS 32 " + atom(v.s) + ")", t: to} // two's complement wrap-around
+	case (ut == "int32" || ut == "int64") && uf == "untyped-int" && v.cv != nil:
+		return val{s: v.s, t: to, cv: v.cv}
 	case ut == "int" && uintBits(uf) > 0 && uintBits(uf) < 64:
 		return val{s: "(Int.ofNat " + atom(v.s) + ")", t: to}
 	}
@@ -3764,7 +3823,7 @@ func (t *translator) extract(g *fn) {
 		}
 		return true
 	})
-	ft := &ftrans{t: t, f: g, names: map[*ast.Object]string{}, used: map[string]bool{}}
+	ft := &ftrans{t: t, f: g, names: map[*ast.Object]string{}, used: map[string]bool{}, curIota: -1}
 	// the conditions that read variables of the list only (constants of the package are allowed)
 	var hits []ast.Expr
 	for _, c := range conds {
@@ -3871,7 +3930,7 @@ func (t *translator) extract(g *fn) {
 // translateBody: one attempt with the current value of g.mayPanic
 func (t *translator) translateBody(g *fn) {
 	g.text = ""
-	ft := &ftrans{t: t, f: g, names: map[*ast.Object]string{}, used: map[string]bool{}}
+	ft := &ftrans{t: t, f: g, names: map[*ast.Object]string{}, used: map[string]bool{}, curIota: -1}
 	e := env{}
 	var ps []string
 	for _, p := range g.params {
@@ -4145,7 +4204,7 @@ func run(repo, leanDir, cfgPath string) (failed []string, err error) {
 				if !ok {
 					failf("constant not found")
 				}
-				(&ftrans{t: t, f: &fn{pkg: p}}).constRef(p, cd)
+				(&ftrans{t: t, f: &fn{pkg: p}, curIota: -1}).constRef(p, cd)
 			}()
 		}
 		var b strings.Builder
@@ -4230,4 +4289,85 @@ func (t *translator) structOrder(in []*StructCfg) []*StructCfg {
 		visit(sc, 0)
 	}
 	return out
+}
+
+// specIndex: the position of a specification inside its declaration (the value of iota)
+func specIndex(gd *ast.GenDecl, sp ast.Spec) int {
+	for i, s := range gd.Specs {
+		if s == sp {
+			return i
+		}
+	}
+	return 0
+}
+
+// structLit: `T{f: e, …}` for a translated struct type (fields that are not mentioned are zero; fields the
+// configuration leaves out are dropped)
+func (ft *ftrans) structLit(c *ast.CompositeLit, e env, pre *[]prelude) (val, bool) {
+	switch c.Type.(type) {
+	case *ast.Ident, *ast.SelectorExpr:
+	default:
+		return val{}, false
+	}
+	tp := ft.typeOfTypeExpr(c.Type)
+	sc := ft.t.structOf(tp)
+	if tp == "" || sc == nil {
+		return val{}, false
+	}
+	p := ft.t.loadPkg(sc.Pkg)
+	st, ok := p.types[sc.Go].(*ast.StructType)
+	if !ok {
+		failf("struct type %s not found", tp)
+	}
+	given := map[string]ast.Expr{}
+	for _, el := range c.Elts {
+		kv, isKV := el.(*ast.KeyValueExpr)
+		if !isKV {
+			failf("a struct literal without field names is outside the subset")
+		}
+		k, isID := kv.Key.(*ast.Ident)
+		if !isID {
+			failf("struct literal outside the subset")
+		}
+		given[k.Name] = kv.Value
+	}
+	file := p.fileOf(st)
+	var fs []string
+	for _, fl := range st.Fields.List {
+		for _, nm := range fl.Names {
+			x, has := given[nm.Name]
+			delete(given, nm.Name)
+			if sc.leftOut(nm.Name) {
+				continue
+			}
+			ftp := sc.fieldType(nm.Name, ft.t.typeOf(p, file, fl.Type))
+			if !has {
+				fs = append(fs, nm.Name+" := "+ft.zero(ftp))
+				continue
+			}
+			v := ft.expr(x, e, pre)
+			if v.opt != nil || v.multi != nil {
+				failf("a multi-valued call as a field of a struct literal")
+			}
+			v = ft.coerce(ftp, v)
+			fs = append(fs, nm.Name+" := "+v.s)
+		}
+	}
+	for k := range given {
+		failf("struct literal names the field %s, which %s does not have (embedded fields are outside the subset)", k, tp)
+	}
+	return val{s: "({ " + strings.Join(fs, ", ") + " } : " + ft.t.leanType(tp) + ")", t: tp}, true
+}
+
+// typeOfTypeExpr: the Go type a type expression of the function's file denotes ("" when outside the subset)
+func (ft *ftrans) typeOfTypeExpr(x ast.Expr) (tp string) {
+	defer func() {
+		if r := recover(); r != nil {
+			if _, ok := r.(failure); !ok {
+				panic(r)
+			}
+			tp = ""
+		}
+	}()
+	return ft.t.typeOf(ft.f.pkg, ft.f.file, x)
 }
